@@ -297,6 +297,34 @@ Proof.
   apply C04_guard_holds_for_every_pipeline.
 Qed.
 
+(* "raising one criterion never alters another bit", for the bits that RECORD a filling (4: filled occlusion,
+   5: filled mismatch; they are among the own bits of a filling validation, so the statement above allows that step
+   to change them): whatever steps follow - a second, a third filling validation included - on the tree under
+   test a filled bit, once set, is still set, for every flag of the invariant, every decision of every step.
+   Step level for any well-formed tree under its guard; sequence level for the tree under test without guard. *)
+Theorem C04_filled_bits_never_cleared_step : forall E, wf_env E = true ->
+  forall cR cI offpos border s d m,
+  pinv_b cR cI m = true -> g_stepE E cR cI s = true -> bI (offpos && border) m ->
+  Z.land (Z.land m 48) (t_step E offpos border s d m) = Z.land m 48.
+Proof. exact t_step_keeps_filled. Qed.
+
+Theorem C04_filled_bits_never_cleared_gen : forall offpos border p cR cI m,
+  pinv_b cR cI m = true -> bI (offpos && border) m ->
+  Z.land (Z.land m 48) (run_flags E0 offpos border p m) = Z.land m 48.
+Proof.
+  intros offpos border p cR cI m Hp Hb.
+  apply (run_flags_keeps_filled E0 C04_flags_wf offpos border p cR cI m Hp); [|exact Hb].
+  apply C04_guard_holds_for_every_pipeline.
+Qed.
+
+(* non-vacuity: a pixel filled as an occlusion (16) that a second filling validation flags again and fills again
+   ends with 16 (mc-cnn and sgm), never with 0 *)
+Example C04_filled_twice_example :
+  let d := mkDec RNan (XInval false) true true true false false in
+  t_step E0 false false (SVal IMcCnn) d 16 = 16 /\ t_step E0 false false (SVal ISgm) d 16 = 16
+  /\ pinv_b false false 16 = true.
+Proof. vm_compute. repeat split. Qed.
+
 (* with `+=` on an information bit the statement without guard is FALSE: the tree as found
    (refinement `mask += 8`, D3) turned 8 into 16 when refinement ran twice *)
 Definition sites_before_fix : list site :=
@@ -494,6 +522,8 @@ Print Assumptions C04_smaller_than_window_all_invalid.
 Print Assumptions C04_allnan_iff_invalid_disp.
 Print Assumptions C04_inv_meaning.
 Print Assumptions C04_step_touches_own_bits.
+Print Assumptions C04_filled_bits_never_cleared_step.
+Print Assumptions C04_filled_bits_never_cleared_gen.
 Print Assumptions C04_own_bits_values.
 Print Assumptions C04_pipeline_flags_documented.
 Print Assumptions C04_pipeline_flags_documented_gen.
